@@ -58,8 +58,28 @@ def meta_case(job, variant, lines):
     return h_engine.resp_json(got) == h_engine.resp_json(want)
 
 
+def translate(ctx: Ctx) -> bool:
+    """run_plan_with_hint and the two contains_chekcpoint methods, regenerated from the tree under test (fail closed)"""
+    import tr_hint
+    from lib.vf import REPO
+    try:
+        files, meta = tr_hint.gen(str(REPO))
+    except Exception as e:      # noqa: BLE001
+        ctx.prepare_coq()
+        for f in (ctx.coq / "gen").glob("HintSrc.*"):
+            f.unlink()
+        ctx.broken.append("translator tools/tr_hint.py rejects the source: %s" % str(e)[:300])
+        ctx.obligations += 1
+        ctx.cov.setdefault("translators", {})["tr_hint"] = {"files": [tr_hint.API, tr_hint.MODELS], "rejected": str(e)[:300]}
+        return False
+    for n, t in files.items():
+        ctx.write_gen(n, t)
+    ctx.cov.setdefault("translators", {})["tr_hint"] = {"files": [tr_hint.API, tr_hint.MODELS], "rejected": None, "functions": meta["functions"]}
+    return True
+
+
 def run(ctx: Ctx) -> int:
-    ec.build_and_check_props(ctx, ["theories/Props/C04.v"])
+    ec.build_and_check_props(ctx, ["theories/Props/C04.v"] + (["theories/Props/C04_hint_src.v"] if translate(ctx) else []))
     budget = ec.Budget(1200 if ctx.thorough else 130)
     shards, findings, infos, samples = {}, [], {}, []
     distinct = set()
